@@ -318,6 +318,14 @@ fn gen_ints(c: &mut Ctx, p: i128, n: usize) -> Vec<i128> {
         v.push(i64::MIN as i128 / p * p + d);
         v.push(u64::MAX as i128 / p * p + d);
     }
+    // where the day count of the instant meets the i32 range, with and without the shift from the Unix
+    // epoch to day 1 of the common era (719_163 days): the narrowing inside `from_timestamp`
+    for days in [i32::MAX as i128, i32::MIN as i128, i32::MAX as i128 - 719_163, i32::MIN as i128 - 719_163, i32::MAX as i128 + 719_163, i32::MIN as i128 + 719_163] {
+        for d in [-2i128, -1, 0, 1, 2] {
+            v.push((days + d) * 86_400 * p);
+            v.push((days + d) * 86_400 * p + 86_399 * p + p - 1);
+        }
+    }
     v.retain(|x| *x >= i64::MIN as i128 && *x <= u64::MAX as i128);
     let boundary = v.len();
     while v.len() < boundary + n {
@@ -329,6 +337,11 @@ fn gen_ints(c: &mut Ctx, p: i128, n: usize) -> Vec<i128> {
             4 => c.rng.range(-5_000_000_000, 5_000_000_000) as i128 * p / 1_000 + c.rng.range(-2, 2) as i128,
             5 => (if c.rng.chance(1, 2) { lo } else { hi }) * p + c.rng.range(-3, 3) as i128 * p + c.rng.range(-2, 2) as i128,
             6 => c.rng.range(i64::MIN, i64::MAX) as i128,
+            _ if c.rng.chance(1, 2) => {
+                // day counts within a million days of the i32 ends (past the calendar, inside the narrowing)
+                let days = (if c.rng.chance(1, 2) { i32::MAX as i128 } else { i32::MIN as i128 }) + c.rng.range(-1_000_000, 1_000_000) as i128;
+                days * 86_400 * p + c.rng.below(86_400 * p as u64) as i128
+            }
             _ => c.rng.range(-100_000, 100_000) as i128,
         };
         if x >= i64::MIN as i128 && x <= u64::MAX as i128 {
